@@ -557,8 +557,12 @@ class PeriodicCondition(Condition):
             self.periodic_interval.boundary_right, n_points=n_points
         ).make_static()
 
-        tmp_left_sampler = self.left_sampler * self.non_periodic_sampler
-        tmp_right_sampler = self.right_sampler * self.non_periodic_sampler
+        # The data functions see, row by row, the left (right) end point next to the
+        # non-periodic point, exactly as in forward(): append the samples column-wise.
+        # (A product sampler would cache the end points joined with the other variables
+        # inside left_sampler/right_sampler and pair every end point with every row.)
+        tmp_left_sampler = self.left_sampler.append(self.non_periodic_sampler)
+        tmp_right_sampler = self.right_sampler.append(self.non_periodic_sampler)
         if self.non_periodic_sampler.is_static:
             tmp_left_sampler = tmp_left_sampler.make_static()
             tmp_right_sampler = tmp_right_sampler.make_static()
